@@ -483,6 +483,12 @@ def run(ctx) -> None:
                 f"@dataclass\nclass ErrorInfo(Error):\n    \"\"\"doc\"\"\"\n\n    prefix = \"EPP\"\n    code = {code}\n    msg: str = \"ep\"\n\n\n"
                 "def check(node: PassStmt, errors: list[Error]) -> None:\n    pass\n"
             )
+        # a plugin family whose highest code is below 100 (`--enable LOWW007` is how it is selected): the next one is 8
+        (site / "rv_epplug" / "low7.py").write_text(
+            "from dataclasses import dataclass\nfrom mypy.nodes import PassStmt\nfrom refurb.error import Error\n\n\n"
+            "@dataclass\nclass ErrorInfo(Error):\n    \"\"\"doc\"\"\"\n\n    prefix = \"LOWW\"\n    code = 7\n    msg: str = \"low\"\n\n\n"
+            "def check(node: PassStmt, errors: list[Error]) -> None:\n    pass\n"
+        )
         di = site / "rv_epplug-1.0.dist-info"
         di.mkdir()
         (di / "METADATA").write_text("Metadata-Version: 2.1\nName: rv-epplug\nVersion: 1.0\n")
@@ -509,6 +515,12 @@ def run(ctx) -> None:
                     (cwd2 / "corpus.py").write_text(CORPUS)
                     jl.append({"cwd": str(cwd2), "raw": raw, "file": "my/checks/new_check.py", "prefix": near, "stub": "fzf"})
                     ml.append({"sel": s, "raw": raw, "cwd": cwd2, "file": "my/checks/new_check.py", "prefix": near, "scenario": near, "module": "my.checks.new_check"})
+                if k < 2 and scen == "EPP":
+                    cwd3 = d / f"sLOWW{k}"
+                    cwd3.mkdir()
+                    (cwd3 / "corpus.py").write_text(CORPUS)
+                    jl.append({"cwd": str(cwd3), "raw": raw, "file": "my/checks/new_check.py", "prefix": "LOWW", "stub": "fzf"})
+                    ml.append({"sel": s, "raw": raw, "cwd": cwd3, "file": "my/checks/new_check.py", "prefix": "LOWW", "scenario": "LOWW", "module": "my.checks.new_check"})
 
         # -------------------------------------------------------------- target path handling
         outside = d / "outside"
@@ -792,13 +804,13 @@ def run(ctx) -> None:
             (scen, _), ms = item
             cwd = ms[0]["cwd"]
             load = ["plg"] if scen == "fresh" else [ms[0]["module"]]
-            env = {"PYTHONPATH": str(site)} if scen == "EPP" else None
+            env = {"PYTHONPATH": str(site)} if scen in ("EPP", "EPPX", "LOWW") else None
             rc, out, err = core.refurb_cli(["corpus.py", "--quiet", "--load", *load], cwd=cwd, env_extra=env)
             return ms, rc, out, err
 
         def explain_one(m: dict[str, Any]) -> tuple[dict[str, Any], str]:
-            env = {"PYTHONPATH": str(site)} if m["scenario"] == "EPP" else None
-            rc, out, err = core.refurb_cli(["--explain", f"{m['prefix']}{m['code']}", "--load", m["module"]], cwd=m["cwd"], env_extra=env)
+            env = {"PYTHONPATH": str(site)} if m["scenario"] in ("EPP", "EPPX", "LOWW") else None
+            rc, out, err = core.refurb_cli(["--explain", f"{m['prefix']}{m['code']:03d}", "--load", m["module"]], cwd=m["cwd"], env_extra=env)
             return m, out + err
 
         def path_one(pm: dict[str, Any]) -> tuple[dict[str, Any], list[tuple[str, int, str, str]]]:
